@@ -14,7 +14,7 @@ Definition hist_reps0 (h : hist) : hist := mkHist (h_bytes h) (h_len h) 0 0 0 0.
 Fixpoint push_bytes (bs : list N) (h : list N) : list N := match bs with [] => h | b :: t => push_bytes t (b :: h) end.
 
 (* serialise one chunk; None when the chunk is not well formed *)
-Definition ser_chunk (s : l2state) (c : chunk) : option (list N * l2state) :=
+Definition ser_chunk_gen (lenient : bool) (s : l2state) (c : chunk) : option (list N * l2state) :=
   match c with
   | CRaw rd data =>
       let n := nlen data in
@@ -38,7 +38,7 @@ Definition ser_chunk (s : l2state) (c : chunk) : option (list N * l2state) :=
       if negb props_ok then None else
       let es1 := if 1 <=? cls then mkEstate (ptabs_new (2 ^ (f_lc props' + f_lp props'))) 0 (hist_reps0 h1)
                  else mkEstate (es_tabs es) (es_st es) h1 in
-      match enc_syms props' None ienc0 es1 prog with
+      match enc_syms_gen lenient props' None ienc0 es1 prog with
       | None => None
       | Some (ie, es2) =>
           let unpacked := h_len (es_hist es2) - h_len h1 in
@@ -53,14 +53,14 @@ Definition ser_chunk (s : l2state) (c : chunk) : option (list N * l2state) :=
       end
   end.
 
-Fixpoint ser_chunks (s : l2state) (cs : list chunk) : option (list N * l2state) :=
+Fixpoint ser_chunks_gen (lenient : bool) (s : l2state) (cs : list chunk) : option (list N * l2state) :=
   match cs with
   | [] => Some ([], s)
   | c :: rest =>
-      match ser_chunk s c with
+      match ser_chunk_gen lenient s c with
       | None => None
       | Some (b1, s1) =>
-          match ser_chunks s1 rest with
+          match ser_chunks_gen lenient s1 rest with
           | None => None
           | Some (b2, s2) => Some (b1 ++ b2, s2)
           end
@@ -68,8 +68,11 @@ Fixpoint ser_chunks (s : l2state) (cs : list chunk) : option (list N * l2state) 
   end.
 
 (* the LZMA2 stream (with the end control byte) and the bytes it defines *)
-Definition ser2 (cs : list chunk) : option (list N * list N) :=
-  match ser_chunks l2state0 cs with
-  | Some (bytes, s) => Some (bytes ++ [0], rev (h_bytes (es_hist (l2_es s)) ++ l2_flushed s))
+Definition ser_chunk := ser_chunk_gen false.
+Definition ser_chunks := ser_chunks_gen false.
+Definition ser2_gen (lenient : bool) (cs : list chunk) : option (list N * list N) :=
+  match ser_chunks_gen lenient l2state0 cs with
+  | Some (bytes, s) => Some (bytes ++ [0], lrev (h_bytes (es_hist (l2_es s)) ++ l2_flushed s))
   | None => None
   end.
+Definition ser2 := ser2_gen false.
